@@ -52,6 +52,20 @@ def _full_buffer_requeue():
     return out
 
 
+def _redundant_open():
+    """open_socket() on a client that is already open is a no-op: messages accepted before it (held for a down link, or in flight) are
+    still transmitted, once, in order"""
+    out = []
+    for before in (1, 2, 5):
+        for mode in ("refuse", "latency"):
+            sc = [("net", "refuse")] if mode == "refuse" else [("net", "accept"), ("lat", 6)]
+            sc += [("open",), ("adv", 1)] + [("send", i, "ok", "idem") for i in range(1, before + 1)] + [("open",), ("turn", 1), ("send", 20, "ok", "idem"), ("open",)]
+            sc += [("net", "accept"), ("adv", 24), ("heal",)]
+            out.append(("faults", sc))
+    out.append(("faults", [("net", "accept"), ("open",), ("adv", 8), ("block", 1), ("send", 1, "ok", "idem"), ("send", 2, "ok", "idem"), ("open",), ("turn", 2), ("block", 0), ("adv", 8), ("heal",)]))
+    return out
+
+
 def _cancel_window(ctx, gen):
     """the caller of one send() gives up (its task is cancelled, as a timeout around the call does) while the link is congested
     and other commands are in flight: the connection stays up and no write fails, so every OTHER accepted command is still
@@ -135,6 +149,7 @@ def run(ctx, deep=False):
         items.append(("steady", _long_run(320 if not thorough else 1000)))
         items += _reset_window()
         items += _full_buffer_requeue()
+        items += _redundant_open()
         good = sockcheck.judge_family(ctx, "C01", items, MONITORS, gen=gen, nontrivial=_nontrivial)
         sockcheck.validate_against_model(ctx, good, "AT%d" % gen)
         _cancel_window(ctx, gen)
